@@ -166,6 +166,34 @@ func c10Scenarios(tier string) []e1lib.Scenario {
 			}
 		}
 	}
+	// inputs of more than 1024 and 2048 elements (one worker takes them all, or two share them), monoids whose identity is
+	// not the zero value: whatever a worker does at a size threshold, it goes on from the monoid's empty element
+	for _, n := range []int{1100, 2100} {
+		if tier == "quick" && n > 1100 {
+			continue
+		}
+		for _, par := range []int{1, 2} {
+			for _, mo := range []string{"min", "and", "product"} {
+				input := make([]int, n)
+				for i := range input {
+					switch mo {
+					case "min":
+						input[i] = 3 + (i*7)%11
+					case "and":
+						input[i] = ^(1 << (i % 5))
+					default:
+						input[i] = 1
+						if i%400 == 7 {
+							input[i] = 3
+						}
+					}
+				}
+				c := forkh.Cfg{Stage: "fold", Par: par, Input: input, InCap: 0, Monoid: mo, Stop: -1}
+				out = append(out, e1lib.Scenario{Name: forkName(c) + " deviations<=0", Root: func() { forkh.Scenario(c) }, Check: c10Check(c), Bound: 0, Deviations: true, Sample: map[string]any{"stage": "fold", "par": par, "elements": n, "monoid": mo}, Sym: true, Horizon: 40 * n,
+					Nontrivial: func(outcomes, execs, states int) bool { return true }})
+			}
+		}
+	}
 	// two independent folds: 300 workers parked on an idle input must not keep a 2-worker fold from delivering
 	for _, par := range []int{40, 300} {
 		c := forkh.Cfg{Stage: "fold2", Par: par, Input: []int{8, 64}, InCap: 0, Monoid: "sum", Stop: -1}
